@@ -112,11 +112,26 @@ def _mag_class(x):
     return 'lo' if frac < ONE >> 1 else 'hi'
 
 
+class _OneString(object):
+    """String space holding the last stored string only (MKI$ of the float operands needs somewhere to put it)."""
+
+    def __init__(self):
+        self.last = b''
+
+    def store(self, s, address=None):
+        self.last = bytes(s)
+        return len(self.last), 0x1000
+
+    def view(self, length, address):
+        return memoryview(self.last)[:length]
+
+
 class _Env(object):
     """Per-worker objects: bare Values for numeric conversions, Session values for strings."""
 
     def __init__(self, strings=True):
         self.vals = num.make_values()
+        self.vals.stringspace = _OneString()
         self.A = {4: N.Single(None, self.vals), 8: N.Double(None, self.vals)}
         self.session = None
         if strings:
@@ -164,6 +179,18 @@ def check_float(part, env, fmt, neg, exp, man, do_str=True, do_conv=True):
             part.violation('cint/%s/spurious-overflow' % tname,
                            'CINT(%s %s): Overflow, expected %d' % (tname, b.hex(), want), case)
         part.classes.add('cint %s %s %s ov' % (tname[0], sg, mc))
+    # ---- MKI$ of a float: the two bytes of CINT of it (the other statements that take an integer argument
+    # convert the same way), Overflow under the same condition
+    gm = _call(part, 'mki', case, V.mki_, A)
+    n += 1
+    if gm[0] == 'ok':
+        mb = bytes(gm[1].to_str())
+        if not inrange:
+            part.violation('mki/%s/missed-overflow' % tname, 'MKI$(%s %s) gave %s, expected Overflow' % (tname, b.hex(), mb.hex()), case)
+        elif mb != struct.pack('<h', want):
+            part.violation('mki/%s/wrong-value' % tname, 'MKI$(%s %s) gave %s, CINT rounds to %d' % (tname, b.hex(), mb.hex(), want), case)
+    elif gm[0] == 'err' and (gm[1] != OV or strictly_in):
+        part.violation('mki/%s/wrong-error' % tname, 'MKI$(%s %s): error %r, CINT rounds to %d' % (tname, b.hex(), gm[1], want), case)
     # ---- FIX, INT
     for key, fn, ref in (('fix', V.fix_, mbf.fix_scaled), ('int', V.int_, mbf.floor_scaled)):
         want = ref(x)
